@@ -127,8 +127,15 @@ def model_query(case, impl_res):
     pos = DC.fracs(sm['channel_positions'])
     for fam, peaks in (('templates', sm['templates_channels']), ('clusters', sm['clusters_channels'])):
         rows = _find(ok, fam + '.waveformsChannels', label)
-        qs.append(dict(p=PID, op='nearest', positions=pos, probes=sm['channel_probes'], peaks=peaks, ncw=ncw,
-                       impl=rows['vals'] if rows else None))
+        q = dict(p=PID, op='nearest', positions=pos, probes=sm['channel_probes'], peaks=peaks, ncw=ncw,
+                 impl=rows['vals'] if rows else None)
+        # the stored waveforms where they are exact rationals (templates; cluster waveforms of an un-curated dataset ARE
+        # the templates; not the large float32 tokens of replayed merged cases): the Lean export model
+        # `exportListedChannels` computes the table from ITS OWN peak channels and judges the real rows against those
+        exact = not (case.get('probes') and not case.get('exact_tokens'))
+        if exact and (fam == 'templates' or sm['spike_clusters'] == sm['spike_templates']):
+            q['wfs'] = DC.fracs(sm['templates'] if fam == 'templates' else sm['clusters_wfs'])
+        qs.append(q)
     if case.get('probes') and not case.get('exact_tokens'):
         # merged datasets with the LARGE tokens of merge_common (replayed older corpus cases): only the index bookkeeping
         # and the geometry are judged (see judge); generated merged cases carry exactly representable tokens
@@ -272,6 +279,11 @@ def judge(case, impl_res, ans):
             return 'MACHINERY: model channel rows rejected by their own spec'
         if res[i]['impl_spec'] is not True:
             return 'SPEC: %s.waveformsChannels are not the nearest same-probe channels, peak first' % fam
+        if res[i].get('listed_spec') is False:
+            return 'MACHINERY: rows of exportListedChannels rejected by nearestOK on the model\'s own peak channels (contradicts listed_channels_of_waveform)'
+        if res[i].get('listed_impl_spec') is False:
+            return ('SPEC: %s.waveformsChannels are not the nearest same-probe channels of the peak channel of the stored '
+                    'waveform (model rows %s)' % (fam, res[i].get('listed')))
         if res[i].get('impl_peak_first') is False:
             return 'MACHINERY: rows accepted by nearestOK do not start with the peak channel (contradicts nearestOK_peak_first)'
     if case.get('probes'):
